@@ -176,6 +176,9 @@ func (aead *aesCBCAEAD) Open(dst, nonce, ciphertext, additionalData []byte) ([]b
 	// Remove the tag from the end of the ciphertext
 	ciphertextTag := ciphertext[len(ciphertext)-aead.tagSize:]
 	ciphertext = ciphertext[:len(ciphertext)-aead.tagSize]
+	if len(ciphertext)%aes.BlockSize != 0 {
+		return nil, errors.New("invalid ciphertext size")
+	}
 
 	// First, check the authentication tag matches
 	expectTag := aead.hmacTag(hmac.New(aead.macAlg, aead.macKey), additionalData, nonce, ciphertext, aead.tagSize)
